@@ -57,9 +57,9 @@ fn run_bytecode(vm: &gluon::Thread, bytes: &[u8]) -> Outcome {
 }
 
 fn load_and_import(vm: &gluon::Thread, bytes: &[u8]) -> Outcome {
-    let mut de = serde_json::Deserializer::from_slice(bytes);
-    match block_on(vm.load_bytecode("c12mod", &mut de)) {
-        Ok(()) => gl::run(vm, "c12user", "import! c12mod"),
+    let mut de = serde_json::Deserializer::from_reader(std::io::Cursor::new(bytes.to_vec()));
+    match block_on(vm.load_bytecode("c12", &mut de)) {
+        Ok(()) => gl::run(vm, "c12user", "c12"),
         Err(e) => {
             let (class, msg) = gl::classify(&e);
             Outcome::Fail { class: format!("load:{}", class), msg }
@@ -302,7 +302,11 @@ impl Property for C12 {
         };
         if let Some(e) = v.get("compile_error") {
             let src_out: Outcome = serde_json::from_value(v["src_out"].clone()).unwrap();
-            if is_front_end_failure(&src_out).is_some() {
+            let e_text = e.as_str().unwrap_or("");
+            // run_expr checks against an expected type (a hole), compile_to_bytecode checks without
+            // one; programs that only the latter rejects fall under the checker's record-field
+            // generalisation (judged by C03), not under this property
+            if is_front_end_failure(&src_out).is_some() || e_text.starts_with("[typecheck]") {
                 j.classes.push("rejected_by_front_end".into());
                 j.verdict = Verdict::Inconclusive(format!("generated program rejected: {}", e));
             } else {
